@@ -223,6 +223,7 @@ class Check:
         self.obligations = []       # (name, ok, note)
         self.evaluations = 0
         self.distinct = set()
+        self.distinct_extra = 0
         self.samples = []
         self.violations = []        # dicts
         self.known_hits = {}        # key -> count
@@ -338,7 +339,7 @@ class Check:
             checker_cmd=self.checker_cmd or "lake build",
             trusted_base=self.trusted or ["Lean 4.33 kernel", "axioms propext/Classical.choice/Quot.sound only"],
             obligation_list=[dict(name=o[0], ok=o[1], note=o[2]) for o in self.obligations],
-            evaluations=self.evaluations, distinct_nontrivial=len(self.distinct),
+            evaluations=self.evaluations, distinct_nontrivial=len(self.distinct) + self.distinct_extra,
             rule=self.rule, samples=self.samples or ["(none)"],
             programs=self.programs, disagreements_checked=self.disagreements_checked,
             distribution=self.cov,
@@ -356,7 +357,7 @@ class Check:
             print(f"VIOLATION property={self.pid} replay={replay}{tail}")
             return 1
         print(f"OK property={self.pid} tier={self.tier} obligations={n_ok}/{n_ob} cases={self.evaluations} "
-              f"distinct={len(self.distinct)} wall={ev['wall_s']}s")
+              f"distinct={len(self.distinct) + self.distinct_extra} wall={ev['wall_s']}s")
         return 0
 
 
